@@ -84,23 +84,34 @@ def get_aug_config(intensity_aug, geometric_aug):
             geometric_aug = [geometric_aug]
 
         for g in geometric_aug:
+            # rotation, scale and translate share one affine transform: each
+            # of them switches its own parameter on and switches off only the
+            # affine parameters that are not named anywhere in the list, so
+            # that every option in the list is enabled whatever the order.
             if g == "rotation":
                 aug_config.geometric.affine_p = 1.0
-                aug_config.geometric.scale = (1.0, 1.0)
-                aug_config.geometric.translate_height = 0
-                aug_config.geometric.translate_width = 0
+                aug_config.geometric.rotation = 15.0
+                if "scale" not in geometric_aug:
+                    aug_config.geometric.scale = (1.0, 1.0)
+                if "translate" not in geometric_aug:
+                    aug_config.geometric.translate_height = 0
+                    aug_config.geometric.translate_width = 0
             elif g == "scale":
-                aug_config.geometric.scale = (0.9, 1.1)
                 aug_config.geometric.affine_p = 1.0
-                aug_config.geometric.rotation = 0
-                aug_config.geometric.translate_height = 0
-                aug_config.geometric.translate_width = 0
+                aug_config.geometric.scale = (0.9, 1.1)
+                if "rotation" not in geometric_aug:
+                    aug_config.geometric.rotation = 0
+                if "translate" not in geometric_aug:
+                    aug_config.geometric.translate_height = 0
+                    aug_config.geometric.translate_width = 0
             elif g == "translate":
+                aug_config.geometric.affine_p = 1.0
                 aug_config.geometric.translate_height = 0.2
                 aug_config.geometric.translate_width = 0.2
-                aug_config.geometric.affine_p = 1.0
-                aug_config.geometric.rotation = 0
-                aug_config.geometric.scale = (1.0, 1.0)
+                if "rotation" not in geometric_aug:
+                    aug_config.geometric.rotation = 0
+                if "scale" not in geometric_aug:
+                    aug_config.geometric.scale = (1.0, 1.0)
             elif g == "erase_scale":
                 aug_config.geometric.erase_p = 1.0
             elif g == "mixup":
